@@ -21,5 +21,4 @@ def run(ctx):
                         "patterns are also inserted in reverse order with a duplicate and an empty pattern"]
 
 def replay(ctx, rp):
-    vlib.log("replay: the file holds the concrete input; re-run ./check C05")
-    return 2
+    return vlib.replay_any(ctx, rp)
